@@ -89,6 +89,13 @@ CLAIMED = {
    text="For every composite type of the TLC-enumerated universe (class table with same-named classes in two modules, shared field names with different types, recursive/mutually recursive classes, aliases as members) the real marshal/unmarshal of the whole value is compared by TLC with the composite rebuilt from the outcomes of separately obtained member routines, in both directions, for every documented source shape (mapping, iterable of pairs, JSON text/bytes, literal text, foreign object, tuple, generator) and in both class visiting orders; when a member rejects, the composite must raise too.",
    ref="DESIGN.md section 4 C05",
    note="Trusted: TLC; the harness's decomposition of inputs and rebuild with Python constructors; term projection. The routing-table (implementation-shaped) model is the graph model of C09; Factory-level routing is checked behaviourally here."),
+ "C07": dict(
+   engine="Graph",
+   technique="TLA+ spec Graph.tla (termination and cut rule over all cycle topologies, liveness under fairness) + Member_Trace.tla (per-level events); TLC-emitted cycle topologies materialised, routines built under a watchdog, values unrolled to depth d, each recursion level validated by TLC",
+   level="model_checking",
+   text="TLC proves on the graph model that construction terminates and every cycle is cut for every topology of up to 2 classes x 2 fields (and 3 classes x 1 field) with every class or container as root. Each emitted cyclic (topology, root) is materialised (four class flavours, one or two modules); marshaller, unmarshaller and codec are built under a watchdog, and for each depth the raw wire value is unmarshalled, walked level by level (one flat event per level: right class, every scalar converted), marshalled back and sent through the codec; TLC validates every event.",
+   ref="DESIGN.md section 4 C07",
+   note="Trusted: TLC; the harness's level walker and value unroller; depth counts class levels (12 quick, 150 thorough); below the second level values are paths rather than full trees."),
 }
 NOT_BUILT = "check not built yet (build in progress; see DESIGN.md section 7 build order)"
 
